@@ -1,5 +1,1963 @@
-//! C10 — stub (being built).
+//! C10 — depth / complexity / recursion / directive limits are enforced exactly.
+//!
+//! For every generated single-operation document the four measures are computed
+//! by the harness' own reference (R3, on the harness AST, fragments inlined),
+//! the schema is rebuilt with one limit at m−1, m, m+1 and the request executed
+//! against it. The monitor reads the response and the resolver event log:
+//! measure > limit ⇒ errors, no data and not one resolver `Start` event;
+//! measure ≤ limit ⇒ the request executes.
+
+use std::collections::{BTreeSet, HashMap};
+use std::sync::Arc;
+
+use async_graphql::{Request, Response, ValidationMode, Variables};
+use serde_json::{Value as J, json};
+use vh_core::{Rng, Run, catch, rng};
+use vh_model::doc::*;
+use vh_model::gen_doc::{GenDoc, gen_doc};
+use vh_model::gen_ts::gen_type_system;
+use vh_model::types::*;
+use vh_model::world::World;
+use vh_schema::{Ek, Env, dynb, s1};
+
+use crate::common::{doc_opts, n_shards, ts_opts, world_for};
+
+// ================================================================= S10: a second derive-built schema
+//
+// S1 declares one complexity rule, on a root field (`Query.page`); no fragment
+// can reach a root field from a selection set of another type. S10 puts rules
+// on fields of objects that sit behind an interface and a union, on a
+// SimpleObject and on a ComplexObject, in four shapes.
+
+pub mod s10 {
+    use std::sync::Arc;
+
+    use async_graphql::*;
+    use vh_model::types::{ArgDef, FieldDef, Kind, Ty, TypeDef, TypeSystem, Val};
+    use vh_model::world::PlanVal;
+    use vh_schema::s1::{Cx, Echo, FromPlan, plan};
+
+    use super::Rule;
+
+    fn bad<T>(what: &str, pv: &PlanVal) -> Result<T> {
+        Err(Error::new(format!("harness: cannot express {pv:?} as {what}")))
+    }
+
+    macro_rules! node_type {
+        ($name:ident, $gql:literal) => {
+            #[derive(Clone, Debug)]
+            pub struct $name(pub u64);
+            impl FromPlan for $name {
+                fn from_plan(pv: PlanVal, _: &Cx) -> Result<Self> {
+                    match pv {
+                        PlanVal::Node { ty, id } if ty == $gql => Ok($name(id)),
+                        other => bad($gql, &other),
+                    }
+                }
+            }
+        };
+    }
+    node_type!(Shelf, "Shelf");
+    node_type!(Book, "Book");
+    node_type!(Page, "Page");
+
+    #[derive(Interface)]
+    #[graphql(name = "Node", field(name = "id", ty = "ID"))]
+    pub enum NodeI {
+        Shelf(Shelf),
+        Book(Book),
+    }
+    impl FromPlan for NodeI {
+        fn from_plan(pv: PlanVal, _: &Cx) -> Result<Self> {
+            match pv {
+                PlanVal::Node { ty, id } if ty == "Shelf" => Ok(NodeI::Shelf(Shelf(id))),
+                PlanVal::Node { ty, id } if ty == "Book" => Ok(NodeI::Book(Book(id))),
+                other => bad("Node", &other),
+            }
+        }
+    }
+
+    #[derive(Union)]
+    pub enum Item {
+        Shelf(Shelf),
+        Book(Book),
+    }
+    impl FromPlan for Item {
+        fn from_plan(pv: PlanVal, _: &Cx) -> Result<Self> {
+            match pv {
+                PlanVal::Node { ty, id } if ty == "Shelf" => Ok(Item::Shelf(Shelf(id))),
+                PlanVal::Node { ty, id } if ty == "Book" => Ok(Item::Book(Book(id))),
+                other => bad("Item", &other),
+            }
+        }
+    }
+
+    #[Object]
+    impl Shelf {
+        async fn id(&self, ctx: &Context<'_>) -> Result<ID> {
+            plan(ctx, "Shelf", self.0, "id", vec![]).await
+        }
+        async fn label(&self, ctx: &Context<'_>) -> Result<String> {
+            plan(ctx, "Shelf", self.0, "label", vec![]).await
+        }
+        #[graphql(complexity = 7)]
+        async fn cost(&self, ctx: &Context<'_>) -> Result<i32> {
+            plan(ctx, "Shelf", self.0, "cost", vec![]).await
+        }
+        #[graphql(complexity = "(count.max(0) as usize).saturating_mul(child_complexity).saturating_add(2)")]
+        async fn books(&self, ctx: &Context<'_>, #[graphql(default = 5)] count: i32) -> Result<Vec<Book>> {
+            plan(ctx, "Shelf", self.0, "books", vec![("count", count.echo())]).await
+        }
+        #[graphql(complexity = "child_complexity.saturating_mul(2)")]
+        async fn parent(&self, ctx: &Context<'_>) -> Result<Option<Shelf>> {
+            plan(ctx, "Shelf", self.0, "parent", vec![]).await
+        }
+        async fn owner(&self, ctx: &Context<'_>) -> Result<Option<NodeI>> {
+            plan(ctx, "Shelf", self.0, "owner", vec![]).await
+        }
+        async fn first(&self, ctx: &Context<'_>) -> Result<Option<Item>> {
+            plan(ctx, "Shelf", self.0, "first", vec![]).await
+        }
+    }
+
+    #[Object]
+    impl Book {
+        async fn id(&self, ctx: &Context<'_>) -> Result<ID> {
+            plan(ctx, "Book", self.0, "id", vec![]).await
+        }
+        async fn title(&self, ctx: &Context<'_>) -> Result<String> {
+            plan(ctx, "Book", self.0, "title", vec![]).await
+        }
+        /// nullable argument without default: absent and null both mean 10
+        #[graphql(complexity = "(first.unwrap_or(10).max(0) as usize).saturating_mul(child_complexity).saturating_add(1)")]
+        async fn pages(&self, ctx: &Context<'_>, first: Option<i32>) -> Result<Vec<Page>> {
+            plan(ctx, "Book", self.0, "pages", vec![("first", first.echo())]).await
+        }
+        async fn shelf(&self, ctx: &Context<'_>) -> Result<Option<Shelf>> {
+            plan(ctx, "Book", self.0, "shelf", vec![]).await
+        }
+        async fn meta(&self, ctx: &Context<'_>) -> Result<Meta> {
+            plan(ctx, "Book", self.0, "meta", vec![]).await
+        }
+    }
+
+    #[Object]
+    impl Page {
+        async fn n(&self, ctx: &Context<'_>) -> Result<i32> {
+            plan(ctx, "Page", self.0, "n", vec![]).await
+        }
+        async fn text(&self, ctx: &Context<'_>) -> Result<Option<String>> {
+            plan(ctx, "Page", self.0, "text", vec![]).await
+        }
+        async fn book(&self, ctx: &Context<'_>) -> Result<Option<Book>> {
+            plan(ctx, "Page", self.0, "book", vec![]).await
+        }
+    }
+
+    /// derive(SimpleObject) field rules and a ComplexObject method rule
+    #[derive(SimpleObject, Clone, Debug)]
+    #[graphql(complex)]
+    pub struct Meta {
+        #[graphql(complexity = 0)]
+        pub words: i32,
+        #[graphql(complexity = 3)]
+        pub rating: Option<f64>,
+        pub plain: i32,
+        #[graphql(skip)]
+        pub id: u64,
+    }
+    #[ComplexObject]
+    impl Meta {
+        #[graphql(complexity = "(k.max(0) as usize).saturating_add(child_complexity)")]
+        async fn derived(&self, ctx: &Context<'_>, #[graphql(default = 1)] k: i32) -> Result<i32> {
+            plan(ctx, "Meta", self.id, "derived", vec![("k", k.echo())]).await
+        }
+        async fn more(&self, ctx: &Context<'_>) -> Result<i32> {
+            plan(ctx, "Meta", self.id, "more", vec![]).await
+        }
+    }
+    impl FromPlan for Meta {
+        fn from_plan(pv: PlanVal, cx: &Cx) -> Result<Self> {
+            match pv {
+                PlanVal::Node { ty, id } if ty == "Meta" => {
+                    let ts = &cx.env.ts;
+                    let f = |name: &str| {
+                        let fd = ts.field("Meta", name).cloned().expect("Meta field in model");
+                        cx.env.world.resolve(ts, "Meta", id, &fd, "{}", "<simple-object-field>")
+                    };
+                    Ok(Meta {
+                        words: i32::from_plan(f("words"), cx)?,
+                        rating: Option::<f64>::from_plan(f("rating"), cx)?,
+                        plain: i32::from_plan(f("plain"), cx)?,
+                        id,
+                    })
+                }
+                other => bad("Meta", &other),
+            }
+        }
+    }
+
+    pub struct Query;
+    #[Object]
+    impl Query {
+        async fn shelf(&self, ctx: &Context<'_>, i: Option<i32>) -> Result<Option<Shelf>> {
+            plan(ctx, "Query", 0, "shelf", vec![("i", i.echo())]).await
+        }
+        async fn node(&self, ctx: &Context<'_>, i: Option<i32>) -> Result<Option<NodeI>> {
+            plan(ctx, "Query", 0, "node", vec![("i", i.echo())]).await
+        }
+        async fn item(&self, ctx: &Context<'_>, i: Option<i32>) -> Result<Option<Item>> {
+            plan(ctx, "Query", 0, "item", vec![("i", i.echo())]).await
+        }
+        async fn items(&self, ctx: &Context<'_>) -> Result<Vec<Item>> {
+            plan(ctx, "Query", 0, "items", vec![]).await
+        }
+        #[graphql(complexity = "(first.max(0) as usize).saturating_mul(child_complexity).saturating_add(1)")]
+        async fn shelves(&self, ctx: &Context<'_>, #[graphql(default = 3)] first: i32) -> Result<Vec<Shelf>> {
+            plan(ctx, "Query", 0, "shelves", vec![("first", first.echo())]).await
+        }
+        #[graphql(complexity = 0)]
+        async fn version(&self, ctx: &Context<'_>) -> Result<String> {
+            plan(ctx, "Query", 0, "version", vec![]).await
+        }
+    }
+
+    struct Noop;
+    impl CustomDirective for Noop {}
+
+    #[Directive(location = "Field", name = "tagA")]
+    fn tag_a() -> impl CustomDirective {
+        Noop
+    }
+    #[Directive(location = "Field", name = "tagB")]
+    fn tag_b(n: Option<i32>) -> impl CustomDirective {
+        let _ = n;
+        Noop
+    }
+
+    pub type Schema10 = Schema<Query, EmptyMutation, EmptySubscription>;
+
+    pub fn builder() -> SchemaBuilder<Query, EmptyMutation, EmptySubscription> {
+        Schema::build(Query, EmptyMutation, EmptySubscription).directive(tag_a).directive(tag_b)
+    }
+
+    fn f(name: &str, ty: &str) -> FieldDef {
+        FieldDef { name: name.into(), args: vec![], ty: Ty::parse(ty) }
+    }
+    fn fa(name: &str, ty: &str, args: Vec<ArgDef>) -> FieldDef {
+        FieldDef { name: name.into(), args, ty: Ty::parse(ty) }
+    }
+    fn a(name: &str, ty: &str, default: Option<Val>) -> ArgDef {
+        ArgDef { name: name.into(), ty: Ty::parse(ty), default }
+    }
+
+    /// What the Rust source above declares, written by hand.
+    pub fn model() -> Arc<TypeSystem> {
+        let mut ts = TypeSystem::new("Query");
+        ts.add(TypeDef { name: "Node".into(), kind: Kind::Interface { fields: vec![f("id", "ID!")], implements: vec![] } });
+        ts.add(TypeDef {
+            name: "Shelf".into(),
+            kind: Kind::Object {
+                fields: vec![
+                    f("id", "ID!"),
+                    f("label", "String!"),
+                    f("cost", "Int!"),
+                    fa("books", "[Book!]!", vec![a("count", "Int!", Some(Val::Int(5)))]),
+                    f("parent", "Shelf"),
+                    f("owner", "Node"),
+                    f("first", "Item"),
+                ],
+                implements: vec!["Node".into()],
+            },
+        });
+        ts.add(TypeDef {
+            name: "Book".into(),
+            kind: Kind::Object {
+                fields: vec![
+                    f("id", "ID!"),
+                    f("title", "String!"),
+                    fa("pages", "[Page!]!", vec![a("first", "Int", None)]),
+                    f("shelf", "Shelf"),
+                    f("meta", "Meta!"),
+                ],
+                implements: vec!["Node".into()],
+            },
+        });
+        ts.add(TypeDef {
+            name: "Page".into(),
+            kind: Kind::Object { fields: vec![f("n", "Int!"), f("text", "String"), f("book", "Book")], implements: vec![] },
+        });
+        ts.add(TypeDef {
+            name: "Meta".into(),
+            kind: Kind::Object {
+                fields: vec![
+                    f("words", "Int!"),
+                    f("rating", "Float"),
+                    f("plain", "Int!"),
+                    fa("derived", "Int!", vec![a("k", "Int!", Some(Val::Int(1)))]),
+                    f("more", "Int!"),
+                ],
+                implements: vec![],
+            },
+        });
+        ts.add(TypeDef { name: "Item".into(), kind: Kind::Union(vec!["Shelf".into(), "Book".into()]) });
+        ts.add(TypeDef {
+            name: "Query".into(),
+            kind: Kind::Object {
+                fields: vec![
+                    fa("shelf", "Shelf", vec![a("i", "Int", None)]),
+                    fa("node", "Node", vec![a("i", "Int", None)]),
+                    fa("item", "Item", vec![a("i", "Int", None)]),
+                    f("items", "[Item!]!"),
+                    fa("shelves", "[Shelf!]!", vec![a("first", "Int!", Some(Val::Int(3)))]),
+                    f("version", "String!"),
+                ],
+                implements: vec![],
+            },
+        });
+        Arc::new(ts)
+    }
+
+    /// The complexity rules the Rust source above declares, written by hand.
+    pub fn rules() -> Vec<((&'static str, &'static str), Rule)> {
+        vec![
+            (("Shelf", "cost"), Rule::Const(7)),
+            (("Shelf", "books"), Rule::Mul { arg: "count", absent: 5, add: 2 }),
+            (("Shelf", "parent"), Rule::ChildMul(2)),
+            (("Book", "pages"), Rule::Mul { arg: "first", absent: 10, add: 1 }),
+            (("Meta", "words"), Rule::Const(0)),
+            (("Meta", "rating"), Rule::Const(3)),
+            (("Meta", "derived"), Rule::Add { arg: "k", absent: 1 }),
+            (("Query", "shelves"), Rule::Mul { arg: "first", absent: 3, add: 1 }),
+            (("Query", "version"), Rule::Const(0)),
+        ]
+    }
+}
+
+// ================================================================= R3: reference measures
+
+/// A declared complexity rule, as the harness models it. All arithmetic is the
+/// saturating usize arithmetic the Rust expressions in S1 / S10 spell out.
+#[derive(Clone, Copy, Debug)]
+pub enum Rule {
+    Const(u64),
+    /// `max(arg, 0) * child + add`; `absent` is the value when the argument is absent (or null, for a nullable argument)
+    Mul { arg: &'static str, absent: i64, add: u64 },
+    /// `child * k`
+    ChildMul(u64),
+    /// `max(arg, 0) + child`
+    Add { arg: &'static str, absent: i64 },
+}
+
+pub type Rules = HashMap<(String, String), Rule>;
+
+fn rules_of(v: Vec<((&'static str, &'static str), Rule)>) -> Rules {
+    v.into_iter().map(|((t, f), r)| ((t.to_string(), f.to_string()), r)).collect()
+}
+
+fn s1_rules() -> Rules {
+    rules_of(vec![(("Query", "page"), Rule::Mul { arg: "count", absent: 5, add: 2 })])
+}
+
+#[derive(Clone, Debug, PartialEq)]
+pub struct Measures {
+    pub depth: u64,
+    pub complexity: u128,
+    pub nesting: u64,
+    pub directives: u64,
+}
+
+const UMAX: u128 = usize::MAX as u128;
+
+struct Meter<'a> {
+    ts: &'a TypeSystem,
+    rules: &'a Rules,
+    doc: &'a Doc,
+    op: &'a Op,
+    vars: &'a J,
+    /// how fields with a declared rule were reached / fed (evidence)
+    via: BTreeSet<String>,
+    rules_applied: u64,
+    /// generator features (in the sense of `run.feature`) this document's complexity depends on
+    needs: BTreeSet<&'static str>,
+}
+
+/// Where a selection set sits: innermost enclosing construct and whether a
+/// named fragment was entered from a selection set of a different type.
+#[derive(Clone, Copy, Default)]
+struct Ctx {
+    named: bool,
+    named_other_type: bool,
+    inline_typed: bool,
+    inline_untyped: bool,
+    nested_fragments: bool,
+    /// below a named fragment that was spread in a selection set of another
+    /// type, with no type-conditioned inline fragment in between
+    below_foreign_spread: bool,
+}
+
+impl<'a> Meter<'a> {
+    fn frag(&self, name: &str) -> Result<&'a Frag, String> {
+        self.doc.frag(name).ok_or_else(|| format!("unknown fragment {name}"))
+    }
+
+    /// depth: 0 for a selection set without fields, else 1 + the deepest field; `__typename` is not entered.
+    fn depth(&self, sels: &'a [Sel]) -> Result<u64, String> {
+        let mut m = 0;
+        for s in sels {
+            let d = match s {
+                Sel::Field(f) if f.name == "__typename" => 0,
+                Sel::Field(f) => 1 + self.depth(&f.sel)?,
+                Sel::Inline { sel, .. } => self.depth(sel)?,
+                Sel::Spread { name, .. } => self.depth(&self.frag(name)?.sel)?,
+            };
+            m = m.max(d);
+        }
+        Ok(m)
+    }
+
+    /// nesting: the operation's selection set is level 0; the selection set of a
+    /// field, of an inline fragment and of a spread fragment is one level further in.
+    fn nesting(&self, sels: &'a [Sel], level: u64) -> Result<u64, String> {
+        let mut m = level;
+        for s in sels {
+            let d = match s {
+                Sel::Field(f) if f.sel.is_empty() => level,
+                Sel::Field(f) => self.nesting(&f.sel, level + 1)?,
+                Sel::Inline { sel, .. } => self.nesting(sel, level + 1)?,
+                Sel::Spread { name, .. } => self.nesting(&self.frag(name)?.sel, level + 1)?,
+            };
+            m = m.max(d);
+        }
+        Ok(m)
+    }
+
+    /// largest number of directives written on one field (fields of spread fragments included)
+    fn directives(&self, sels: &'a [Sel]) -> Result<u64, String> {
+        let mut m = 0;
+        for s in sels {
+            let d = match s {
+                Sel::Field(f) => (f.dirs.len() as u64).max(self.directives(&f.sel)?),
+                Sel::Inline { sel, .. } => self.directives(sel)?,
+                Sel::Spread { name, .. } => self.directives(&self.frag(name)?.sel)?,
+            };
+            m = m.max(d);
+        }
+        Ok(m)
+    }
+
+    fn int_arg(&mut self, parent: &str, f: &FieldSel, arg: &str) -> Result<Option<i64>, String> {
+        let nonnull = self
+            .ts
+            .field(parent, &f.name)
+            .and_then(|fd| fd.arg(arg))
+            .map(|a| a.ty.is_nonnull())
+            .ok_or_else(|| format!("model has no argument {parent}.{}({arg})", f.name))?;
+        let (v, how): (Option<i64>, &str) = match f.args.iter().find(|(k, _)| k == arg).map(|(_, v)| v) {
+            None => (None, "argument_omitted"),
+            Some(Val::Int(i)) => (Some(*i), "literal"),
+            Some(Val::Null) => (None, "null_literal"),
+            Some(Val::Var(v)) => match self.vars.get(v) {
+                Some(J::Null) => (None, "variable_null"),
+                Some(J::Number(n)) if n.as_i64().is_some() => (n.as_i64(), "variable_supplied"),
+                Some(other) => return Err(format!("variable ${v} = {other} is not an Int")),
+                None => match self.op.vars.iter().find(|d| &d.name == v) {
+                    None => return Err(format!("variable ${v} is not defined")),
+                    Some(d) => match &d.default {
+                        Some(Val::Int(i)) => (Some(*i), "variable_default"),
+                        Some(Val::Null) => (None, "variable_default_null"),
+                        Some(other) => return Err(format!("default of ${v} = {} is not an Int", other.gql())),
+                        None => (None, "variable_omitted_without_default"),
+                    },
+                },
+            },
+            Some(other) => return Err(format!("argument {arg} = {} is not modelled", other.gql())),
+        };
+        if nonnull && matches!(how, "null_literal" | "variable_null" | "variable_default_null") {
+            return Err(format!("null for non-null argument {arg}"));
+        }
+        self.via.insert(format!("arg:{how}"));
+        if how == "variable_omitted_without_default" {
+            self.needs.insert(F_OMITTED_VAR);
+        }
+        Ok(v)
+    }
+
+    /// complexity of a selection set whose static type is `parent`
+    fn complexity(&mut self, sels: &'a [Sel], parent: &str, cx: Ctx) -> Result<u128, String> {
+        let mut sum: u128 = 0;
+        for s in sels {
+            sum += match s {
+                Sel::Field(f) if f.name == "__typename" => 0,
+                Sel::Field(f) => {
+                    let fd = self
+                        .ts
+                        .field(parent, &f.name)
+                        .ok_or_else(|| format!("model has no field {parent}.{}", f.name))?;
+                    let child_ty = fd.ty.name().to_string();
+                    let below = Ctx { below_foreign_spread: cx.below_foreign_spread, ..Ctx::default() };
+                    let child = self.complexity(&f.sel, &child_ty, below)?;
+                    if 1 + child > UMAX {
+                        self.needs.insert(F_ABOVE_USIZE);
+                    }
+                    match self.rules.get(&(parent.to_string(), f.name.clone())).copied() {
+                        None => 1 + child,
+                        Some(rule) => {
+                            self.rules_applied += 1;
+                            if cx.below_foreign_spread {
+                                self.needs.insert(F_FOREIGN_SPREAD);
+                            }
+                            self.via.insert("reached:any".into());
+                            if cx.named {
+                                self.via.insert("reached:named_fragment".into());
+                            }
+                            if cx.named_other_type {
+                                self.via.insert("reached:named_fragment_spread_in_other_type".into());
+                            }
+                            if cx.inline_typed {
+                                self.via.insert("reached:inline_fragment_typed".into());
+                            }
+                            if cx.inline_untyped {
+                                self.via.insert("reached:inline_fragment_untyped".into());
+                            }
+                            if cx.nested_fragments {
+                                self.via.insert("reached:nested_fragments".into());
+                            }
+                            if f.alias.is_some() {
+                                self.via.insert("reached:aliased".into());
+                            }
+                            let c = child.min(UMAX);
+                            match rule {
+                                Rule::Const(n) => n as u128,
+                                Rule::Mul { arg, absent, add } => {
+                                    let a = self.int_arg(parent, f, arg)?.unwrap_or(absent).max(0) as u128;
+                                    ((a * c).min(UMAX) + add as u128).min(UMAX)
+                                }
+                                Rule::ChildMul(k) => (c * k as u128).min(UMAX),
+                                Rule::Add { arg, absent } => {
+                                    let a = self.int_arg(parent, f, arg)?.unwrap_or(absent).max(0) as u128;
+                                    (a + c).min(UMAX)
+                                }
+                            }
+                        }
+                    }
+                }
+                Sel::Inline { cond, sel, .. } => {
+                    let mut c2 = cx;
+                    if cx.named || cx.inline_typed || cx.inline_untyped {
+                        c2.nested_fragments = true;
+                    }
+                    if cond.is_some() {
+                        c2.inline_typed = true;
+                        c2.below_foreign_spread = false;
+                    } else {
+                        c2.inline_untyped = true;
+                    }
+                    let t = cond.clone().unwrap_or_else(|| parent.to_string());
+                    self.complexity(sel, &t, c2)?
+                }
+                Sel::Spread { name, .. } => {
+                    let fr = self.frag(name)?;
+                    let mut c2 = cx;
+                    if cx.named || cx.inline_typed || cx.inline_untyped {
+                        c2.nested_fragments = true;
+                    }
+                    c2.named = true;
+                    if fr.cond != parent {
+                        c2.named_other_type = true;
+                        c2.below_foreign_spread = true;
+                    }
+                    self.complexity(&fr.sel, &fr.cond, c2)?
+                }
+            };
+            if sum > UMAX {
+                self.needs.insert(F_ABOVE_USIZE);
+            }
+        }
+        Ok(sum)
+    }
+}
+
+/// Generator features that known findings of this property may exclude.
+const F_FOREIGN_SPREAD: &str = "rule_below_spread_in_other_type";
+const F_OMITTED_VAR: &str = "rule_arg_omitted_variable";
+const F_ABOVE_USIZE: &str = "complexity_above_usize_max";
+
+struct Measured {
+    m: Measures,
+    via: BTreeSet<String>,
+    rules_applied: u64,
+    needs: BTreeSet<&'static str>,
+}
+
+fn measure(ts: &TypeSystem, rules: &Rules, doc: &Doc, vars: &J) -> Result<Measured, String> {
+    if doc.ops.len() != 1 {
+        return Err("not a single-operation document".into());
+    }
+    let op = &doc.ops[0];
+    let root = match op.kind {
+        OpKind::Query => ts.query.clone(),
+        OpKind::Mutation => ts.mutation.clone().ok_or("no mutation type")?,
+        OpKind::Subscription => return Err("subscriptions are not part of this workload".into()),
+    };
+    let mut mt = Meter { ts, rules, doc, op, vars, via: BTreeSet::new(), rules_applied: 0, needs: BTreeSet::new() };
+    let depth = mt.depth(&op.sel)?;
+    let nesting = mt.nesting(&op.sel, 0)?;
+    let directives = mt.directives(&op.sel)?;
+    let complexity = mt.complexity(&op.sel, &root, Ctx::default())?;
+    Ok(Measured { m: Measures { depth, complexity, nesting, directives }, via: mt.via, rules_applied: mt.rules_applied, needs: mt.needs })
+}
+
+// ================================================================= schemas under limits
+
+#[derive(Clone, Copy, Debug, Default, PartialEq, Eq, Hash)]
+pub struct Limits {
+    pub depth: Option<usize>,
+    pub complexity: Option<usize>,
+    pub recursion: Option<usize>,
+    pub directives: Option<usize>,
+}
+
+impl Limits {
+    fn json(&self) -> J {
+        json!({"depth": self.depth, "complexity": self.complexity, "recursive_depth": self.recursion, "directives": self.directives})
+    }
+}
+
+#[derive(Clone, Copy, Debug, PartialEq, Eq, Hash)]
+pub enum Flavour {
+    S1,
+    S10,
+    Dyn,
+}
+
+impl Flavour {
+    fn name(&self) -> &'static str {
+        match self {
+            Flavour::S1 => "static-S1",
+            Flavour::S10 => "static-S10",
+            Flavour::Dyn => "dynamic",
+        }
+    }
+    /// evidence bucket
+    fn group(&self) -> &'static str {
+        match self {
+            Flavour::S1 | Flavour::S10 => "static",
+            Flavour::Dyn => "dynamic",
+        }
+    }
+    fn parse(s: &str) -> Option<Flavour> {
+        Some(match s {
+            "static-S1" => Flavour::S1,
+            "static-S10" => Flavour::S10,
+            "dynamic" => Flavour::Dyn,
+            _ => return None,
+        })
+    }
+}
+
+#[derive(Clone)]
+enum Sch {
+    S1(s1::S1Schema),
+    S10(s10::Schema10),
+    Dyn(async_graphql::dynamic::Schema),
+}
+
+impl Sch {
+    fn execute(&self, req: Request) -> Response {
+        match self {
+            Sch::S1(s) => vh_core::vsched::block_on(s.execute(req)),
+            Sch::S10(s) => vh_core::vsched::block_on(s.execute(req)),
+            Sch::Dyn(s) => vh_core::vsched::block_on(s.execute(req)),
+        }
+    }
+    /// The first response of `execute_stream` (the only one, for a query or mutation).
+    fn execute_stream_first(&self, req: Request) -> Option<Response> {
+        use futures_util::StreamExt;
+        match self {
+            Sch::S1(s) => vh_core::vsched::block_on(async { s.execute_stream(req).next().await }),
+            Sch::S10(s) => vh_core::vsched::block_on(async { s.execute_stream(req).next().await }),
+            Sch::Dyn(s) => vh_core::vsched::block_on(async { s.execute_stream(req).next().await }),
+        }
+    }
+}
+
+macro_rules! with_limits {
+    ($b:expr, $lim:expr, $fast:expr) => {{
+        let mut b = $b;
+        if $fast {
+            b = b.validation_mode(ValidationMode::Fast);
+        }
+        if let Some(v) = $lim.depth {
+            b = b.limit_depth(v);
+        }
+        if let Some(v) = $lim.complexity {
+            b = b.limit_complexity(v);
+        }
+        if let Some(v) = $lim.recursion {
+            b = b.limit_recursive_depth(v);
+        }
+        if let Some(v) = $lim.directives {
+            b = b.limit_directives(v);
+        }
+        b
+    }};
+}
+
+fn build(fl: Flavour, ts: &TypeSystem, lim: &Limits, fast: bool) -> Result<Sch, String> {
+    match fl {
+        Flavour::S1 => Ok(Sch::S1(with_limits!(s1::builder(), lim, fast).finish())),
+        Flavour::S10 => Ok(Sch::S10(with_limits!(s10::builder(), lim, fast).finish())),
+        Flavour::Dyn => with_limits!(dynb::builder(ts), lim, fast).finish().map(Sch::Dyn).map_err(|e| e.to_string()),
+    }
+}
+
+/// Per-shard state: built static schemas and a local tally of what the monitor
+/// observed (flushed into the shared `Run` once per shard, so that shards do
+/// not serialise on its lock).
+#[derive(Default)]
+struct Cache {
+    m: HashMap<(Flavour, Limits, bool), Sch>,
+    t: Tally,
+    sampling: bool,
+}
+
+#[derive(Default)]
+struct Tally {
+    evals: u64,
+    counts: HashMap<String, u64>,
+    sets: BTreeSet<(String, String)>,
+    distinct: Vec<u64>,
+    sampled: HashMap<Flavour, usize>,
+}
+
+impl Tally {
+    fn eval(&mut self) {
+        self.evals += 1;
+    }
+    fn count(&mut self, k: &str, n: u64) {
+        match self.counts.get_mut(k) {
+            Some(v) => *v += n,
+            None => {
+                self.counts.insert(k.to_string(), n);
+            }
+        }
+    }
+    fn seen(&mut self, set: &str, member: &str) {
+        if !self.sets.iter().any(|(a, b)| a == set && b == member) {
+            self.sets.insert((set.to_string(), member.to_string()));
+        }
+    }
+    /// number of samples taken so far for this flavour (and count one more)
+    fn per_flavour(&mut self, fl: Flavour) -> usize {
+        let e = self.sampled.entry(fl).or_insert(0);
+        *e += 1;
+        *e - 1
+    }
+    fn flush(&mut self, run: &Run) {
+        run.evals(self.evals);
+        for (k, v) in self.counts.drain() {
+            run.count(&k, v);
+        }
+        for (a, b) in std::mem::take(&mut self.sets) {
+            run.seen(&a, &b);
+        }
+        for h in self.distinct.drain(..) {
+            run.nontrivial(h);
+        }
+        self.evals = 0;
+    }
+}
+
+impl Cache {
+    fn get(&mut self, fl: Flavour, ts: &TypeSystem, lim: &Limits, fast: bool) -> Result<Sch, String> {
+        if fl == Flavour::Dyn {
+            return build(fl, ts, lim, fast);
+        }
+        if let Some(s) = self.m.get(&(fl, *lim, fast)) {
+            return Ok(s.clone());
+        }
+        let s = build(fl, ts, lim, fast)?;
+        if self.m.len() < 256 {
+            self.m.insert((fl, *lim, fast), s.clone());
+        }
+        Ok(s)
+    }
+}
+
+// ================================================================= workload
+
+/// Static model pieces shared by every shard.
+struct Statics {
+    s1_full: Arc<TypeSystem>,
+    /// S1 with a Query type reduced to `page` and the fields that return composite
+    /// types, so that the one rule S1 declares is reached in a large share of documents
+    s1_page: Arc<TypeSystem>,
+    s1_rules: Rules,
+    s10: Arc<TypeSystem>,
+    s10_rules: Rules,
+    no_rules: Rules,
+}
+
+impl Statics {
+    fn new() -> Statics {
+        let s1_full = s1::model();
+        let mut page = (*s1_full).clone();
+        if let Some(TypeDef { kind: Kind::Object { fields, .. }, .. }) = page.types.iter_mut().find(|t| t.name == "Query") {
+            fields.retain(|f| matches!(f.name.as_str(), "page" | "dog" | "dogs" | "pet" | "named" | "people"));
+        }
+        page.mutation = None;
+        page.subscription = None;
+        Statics {
+            s1_full,
+            s1_page: Arc::new(page),
+            s1_rules: s1_rules(),
+            s10: s10::model(),
+            s10_rules: rules_of(s10::rules()),
+            no_rules: Rules::new(),
+        }
+    }
+}
+
+/// Harness self-check: a declared rule must not sit on a field an interface of
+/// its type also declares (which rule applies to a selection on the interface
+/// would be undefined).
+fn rules_are_unambiguous(ts: &TypeSystem, rules: &Rules) -> Result<(), String> {
+    for (t, f) in rules.keys() {
+        ts.field(t, f).ok_or_else(|| format!("rule on unknown field {t}.{f}"))?;
+        for i in ts.implements_closure(t) {
+            if ts.field(&i, f).is_some() {
+                return Err(format!("rule on {t}.{f}, which interface {i} also declares"));
+            }
+        }
+    }
+    Ok(())
+}
+
+/// Directives that never remove a selection: `@skip(if: false)`, `@include(if: true)`
+/// (literal, supplied variable, or omitted variable with that default), and on
+/// S10 the two no-op custom field directives.
+struct Decor<'a> {
+    r: &'a mut Rng,
+    new_vars: Vec<VarDef>,
+    new_vals: Vec<(String, J)>,
+    var_default: bool,
+    custom: bool,
+    n: usize,
+    /// The library's validation does not visit `__typename` selections, so a
+    /// variable used only there is reported as unused (a matter of C09, not of
+    /// the limits): directives on `__typename` take literals only.
+    literal_only: bool,
+}
+
+impl Decor<'_> {
+    fn bool_dir(&mut self, name: &str, value: bool) -> Dir {
+        let v = match if self.literal_only { 3 } else { self.r.below(4) } {
+            0 => {
+                let n = format!("c{}", self.n);
+                self.n += 1;
+                self.new_vars.push(VarDef { name: n.clone(), ty: Ty::named("Boolean").nn(), default: None });
+                self.new_vals.push((n.clone(), J::from(value)));
+                Val::Var(n)
+            }
+            1 if self.var_default => {
+                let n = format!("c{}", self.n);
+                self.n += 1;
+                let ty = if self.r.bool() { Ty::named("Boolean") } else { Ty::named("Boolean").nn() };
+                self.new_vars.push(VarDef { name: n.clone(), ty, default: Some(Val::Bool(value)) });
+                Val::Var(n)
+            }
+            _ => Val::Bool(value),
+        };
+        Dir { name: name.to_string(), args: vec![("if".into(), v)] }
+    }
+
+    fn dirs(&mut self, max: usize, on_field: bool) -> Vec<Dir> {
+        let k = self.r.below(max + 1);
+        let mut pool: Vec<&str> = vec!["skip", "include"];
+        if self.custom && on_field {
+            pool.push("tagA");
+            pool.push("tagB");
+        }
+        self.r.shuffle(&mut pool);
+        pool.truncate(k);
+        pool.into_iter()
+            .map(|n| match n {
+                "skip" => self.bool_dir("skip", false),
+                "include" => self.bool_dir("include", true),
+                "tagA" => Dir { name: "tagA".into(), args: vec![] },
+                _ => Dir {
+                    name: "tagB".into(),
+                    args: if self.r.bool() { vec![("n".into(), Val::Int(self.r.below(9) as i64))] } else { vec![] },
+                },
+            })
+            .collect()
+    }
+
+    fn walk(&mut self, sels: &mut [Sel], p_field: u32) {
+        for s in sels {
+            match s {
+                Sel::Field(f) => {
+                    if self.r.chance(p_field, 8) {
+                        self.literal_only = f.name == "__typename";
+                        f.dirs = self.dirs(if self.custom { 4 } else { 2 }, true);
+                        self.literal_only = false;
+                    }
+                    self.walk(&mut f.sel, p_field);
+                }
+                Sel::Inline { dirs, sel, .. } => {
+                    if self.r.chance(1, 5) {
+                        *dirs = self.dirs(2, false);
+                    }
+                    self.walk(sel, p_field);
+                }
+                Sel::Spread { dirs, .. } => {
+                    if self.r.chance(1, 5) {
+                        *dirs = self.dirs(2, false);
+                    }
+                }
+            }
+        }
+    }
+}
+
+fn decorate(gd: &mut GenDoc, r: &mut Rng, var_default: bool, custom: bool) {
+    let p_field = [0, 1, 2, 4][r.below(4)];
+    let mut d = Decor { r, new_vars: vec![], new_vals: vec![], var_default, custom, n: 0, literal_only: false };
+    let mut doc = std::mem::take(&mut gd.doc);
+    for op in &mut doc.ops {
+        d.walk(&mut op.sel, p_field);
+    }
+    for fr in &mut doc.frags {
+        d.walk(&mut fr.sel, p_field);
+    }
+    doc.ops[0].vars.extend(d.new_vars);
+    if let J::Object(m) = &mut gd.vars {
+        for (k, v) in d.new_vals {
+            m.insert(k, v);
+        }
+    }
+    gd.doc = doc;
+}
+
+struct Prepared {
+    flavour: Flavour,
+    /// model the document was generated from and is measured against
+    ts: Arc<TypeSystem>,
+    /// model handed to the resolvers
+    env_ts: Arc<TypeSystem>,
+    gd: GenDoc,
+    text: String,
+    world: World,
+    fast: bool,
+    /// execute through `Schema::execute_stream` (first response) instead of `Schema::execute`
+    via_stream: bool,
+    case_seed: u64,
+}
+
+fn prepare(run: &Run, st: &Statics, fl: Flavour, case_seed: u64) -> Prepared {
+    let mut r = Rng::new(case_seed);
+    let (ts, env_ts) = match fl {
+        Flavour::S1 => {
+            if r.chance(3, 5) { (st.s1_page.clone(), st.s1_full.clone()) } else { (st.s1_full.clone(), st.s1_full.clone()) }
+        }
+        Flavour::S10 => (st.s10.clone(), st.s10.clone()),
+        Flavour::Dyn => {
+            let t = Arc::new(gen_type_system(&mut r, &ts_opts(run)));
+            (t.clone(), t)
+        }
+    };
+    let mut o = doc_opts(run);
+    o.directives = false; // replaced by directives that never prune, see `decorate`
+    o.extra_operations = false; // single-operation documents only
+    o.max_depth = 1 + r.below(5) as u32;
+    o.max_items = 1 + r.below(4);
+    o.kind = if ts.mutation.is_some() && r.chance(1, 8) { OpKind::Mutation } else { OpKind::Query };
+    let mut gd = gen_doc(&ts, &mut r, &o);
+    decorate(&mut gd, &mut r, run.feature("directive_var_default"), fl == Flavour::S10);
+    let text = print(&gd.doc, r.bool()).text;
+    let world = match fl {
+        Flavour::Dyn => world_for("dynamic", r.next_u64()),
+        _ => world_for("static", r.next_u64()),
+    };
+    let fast = r.chance(1, 3);
+    // A dynamic schema without subscription root answers every execute_stream
+    // call with "Subscription root not found" (src/dynamic/schema.rs), queries
+    // included; that is no matter of the limits, so dynamic cases use execute.
+    let via_stream = r.chance(1, 4) && fl != Flavour::Dyn;
+    Prepared { flavour: fl, ts, env_ts, gd, text, world, fast, via_stream, case_seed }
+}
+
+// ================================================================= the monitor
+
+#[derive(Debug, Clone, PartialEq)]
+enum Seen {
+    /// errors, no data, no resolver event
+    Rejected,
+    /// at least one resolver ran, or data was produced
+    Executed,
+    /// neither of the two
+    Odd(String),
+}
+
+struct Outcome {
+    seen: Seen,
+    starts: usize,
+    errors: Vec<String>,
+    data_null: bool,
+}
+
+fn observe(p: &Prepared, schema: &Sch) -> Result<Outcome, String> {
+    let env = Env::new(p.env_ts.clone(), p.world.clone());
+    let mut req = Request::new(p.text.clone()).variables(Variables::from_json(p.gd.vars.clone())).data(env.clone());
+    if let Some(n) = &p.gd.op_name {
+        req = req.operation_name(n.clone());
+    }
+    let resp = if p.via_stream {
+        match catch(|| schema.execute_stream_first(req))? {
+            Some(r) => r,
+            None => return Ok(Outcome { seen: Seen::Odd("execute_stream yielded no response".into()), starts: 0, errors: vec![], data_null: true }),
+        }
+    } else {
+        catch(|| schema.execute(req))?
+    };
+    let ev = env.log.snapshot();
+    let starts = ev.iter().filter(|e| e.kind == Ek::Start).count();
+    let data_null = resp.data == async_graphql::Value::Null;
+    let errors: Vec<String> = resp.errors.iter().map(|e| e.message.clone()).collect();
+    let seen = if starts == 0 && data_null && !errors.is_empty() {
+        Seen::Rejected
+    } else if starts > 0 || !data_null {
+        Seen::Executed
+    } else {
+        Seen::Odd("no data, no errors, no resolver event".into())
+    };
+    Ok(Outcome { seen, starts, errors, data_null })
+}
+
+struct Config {
+    kind: &'static str,
+    delta: &'static str,
+    lim: Limits,
+    expect_reject: bool,
+}
+
+fn configs(m: &Measures, r: &mut Rng) -> Vec<Config> {
+    let mut out = vec![Config { kind: "none", delta: "-", lim: Limits::default(), expect_reject: false }];
+    let deltas: [(&'static str, i64); 3] = [("m-1", -1), ("m", 0), ("m+1", 1)];
+    let small = |v: u64, d: i64| -> Option<usize> {
+        let x = v as i128 + d as i128;
+        if x < 0 { None } else { Some(x as usize) }
+    };
+    for (label, d) in deltas {
+        if let Some(l) = small(m.depth, d) {
+            out.push(Config { kind: "depth", delta: label, lim: Limits { depth: Some(l), ..Default::default() }, expect_reject: m.depth > l as u64 });
+        }
+        if let Some(l) = small(m.nesting, d) {
+            out.push(Config {
+                kind: "recursion",
+                delta: label,
+                lim: Limits { recursion: Some(l), ..Default::default() },
+                expect_reject: m.nesting > l as u64,
+            });
+        }
+        if let Some(l) = small(m.directives, d) {
+            out.push(Config {
+                kind: "directives",
+                delta: label,
+                lim: Limits { directives: Some(l), ..Default::default() },
+                expect_reject: m.directives > l as u64,
+            });
+        }
+        let c = m.complexity as i128 + d as i128;
+        if c >= 0 && c <= UMAX as i128 {
+            out.push(Config {
+                kind: "complexity",
+                delta: label,
+                lim: Limits { complexity: Some(c as usize), ..Default::default() },
+                expect_reject: m.complexity > c as u128,
+            });
+        }
+    }
+    if m.complexity > UMAX {
+        // Beyond every configurable value. Whether a complexity that no longer fits
+        // usize "exceeds" a limit of exactly usize::MAX is left open (a saturating
+        // sum would say it does not), so the limit is set one below.
+        out.push(Config {
+            kind: "complexity",
+            delta: "usize::MAX-1",
+            lim: Limits { complexity: Some(usize::MAX - 1), ..Default::default() },
+            expect_reject: true,
+        });
+    }
+    if m.complexity <= UMAX {
+        let all = Limits {
+            depth: Some(m.depth as usize),
+            complexity: Some(m.complexity as usize),
+            recursion: Some(m.nesting as usize),
+            directives: Some(m.directives as usize),
+        };
+        out.push(Config { kind: "all", delta: "m", lim: all, expect_reject: false });
+        // all four at m except one at m-1
+        let mut one = all;
+        let which = r.below(4);
+        let ok = match which {
+            0 if m.depth > 0 => {
+                one.depth = Some(m.depth as usize - 1);
+                true
+            }
+            1 if m.complexity > 0 => {
+                one.complexity = Some(m.complexity as usize - 1);
+                true
+            }
+            2 if m.nesting > 0 => {
+                one.recursion = Some(m.nesting as usize - 1);
+                true
+            }
+            3 if m.directives > 0 => {
+                one.directives = Some(m.directives as usize - 1);
+                true
+            }
+            _ => false,
+        };
+        if ok {
+            out.push(Config { kind: "all", delta: "one-at-m-1", lim: one, expect_reject: true });
+        }
+    }
+    out
+}
+
+fn measures_json(m: &Measures) -> J {
+    json!({"depth": m.depth, "complexity": m.complexity.to_string(), "nesting": m.nesting, "directives": m.directives})
+}
+
+/// Run every configuration of one prepared case. Returns the number of executions.
+fn check(run: &Run, cache: &mut Cache, p: &Prepared, md: &Measured, tag: &str, verbose: bool) {
+    let mut r = Rng::new(rng::mix(&[p.case_seed, 0xc10]));
+    let m = &md.m;
+    let group = p.flavour.group();
+    for c in configs(m, &mut r) {
+        let schema = match catch(|| cache.get(p.flavour, &p.ts, &c.lim, p.fast)) {
+            Ok(Ok(s)) => s,
+            Ok(Err(e)) => {
+                cache.t.count("schema_build_failed", 1);
+                run.sample_upto(8, json!({"schema_build_failed": e, "sdl": p.ts.sdl()}));
+                return;
+            }
+            Err(pn) => {
+                run.violation(
+                    &format!("{tag}-build-panic:{:x}", rng::hash_str(&p.ts.sdl())),
+                    &format!("building the schema panicked: {pn}"),
+                    json!({"flavour": p.flavour.name(), "case_seed": p.case_seed, "schema_sdl": p.ts.sdl(), "limits": c.lim.json()}),
+                );
+                return;
+            }
+        };
+        let replay = |observed: J| {
+            json!({
+                "flavour": p.flavour.name(),
+                "case_seed": p.case_seed,
+                "schema_sdl": p.ts.sdl(),
+                "document": p.text,
+                "operation_name": p.gd.op_name,
+                "variables": p.gd.vars,
+                "world_seed": p.world.seed,
+                "validation_mode": if p.fast { "Fast" } else { "Strict" },
+                "executed_through": if p.via_stream { "Schema::execute_stream" } else { "Schema::execute" },
+                "limit_kind": c.kind,
+                "limit_at": c.delta,
+                "limits": c.lim.json(),
+                "reference_measures": measures_json(m),
+                "expected": if c.expect_reject { "rejected before any resolver runs" } else { "executes" },
+                "observed": observed,
+            })
+        };
+        let sig = format!(
+            "{tag}:{:x}",
+            rng::mix(&[
+                rng::hash_str(p.flavour.name()),
+                rng::hash_str(&p.ts.sdl()),
+                rng::hash_str(&p.text),
+                rng::hash_str(&p.gd.vars.to_string()),
+                rng::hash_str(&format!("{:?}{}", c.lim, p.fast)),
+            ])
+        );
+        let out = match observe(p, &schema) {
+            Ok(o) => o,
+            Err(pn) => {
+                cache.t.eval();
+                cache.t.count("panics", 1);
+                run.violation(
+                    &sig,
+                    &format!(
+                        "{} {} limit {:?}: request checking panicked: {pn} | measures {:?} | doc: {}",
+                        p.flavour.name(),
+                        c.kind,
+                        c.lim,
+                        m,
+                        p.text
+                    ),
+                    replay(json!({"panic": pn})),
+                );
+                continue;
+            }
+        };
+        cache.t.eval();
+        cache.t.count("resolver_start_events", out.starts as u64);
+        cache.t.count(if p.via_stream { "executions_through_execute_stream" } else { "executions_through_execute" }, 1);
+        let verdict = match &out.seen {
+            Seen::Rejected => "rejected",
+            Seen::Executed => "accepted",
+            Seen::Odd(_) => "odd",
+        };
+        cache.t.count(&format!("{group}.{}.{}.{verdict}", c.kind, c.delta), 1);
+        cache.t.count(&format!("{}.{verdict}", c.kind), 1);
+        if verbose {
+            println!(
+                "  {:<10} {:<10} {:?} fast={} expect={} observed={verdict} starts={} errors={:?}",
+                c.kind,
+                c.delta,
+                c.lim,
+                p.fast,
+                if c.expect_reject { "rejected" } else { "accepted" },
+                out.starts,
+                out.errors
+            );
+        }
+        let ok = match (&out.seen, c.expect_reject) {
+            (Seen::Rejected, true) | (Seen::Executed, false) => true,
+            _ => false,
+        };
+        if !ok {
+            let obs = json!({"verdict": verdict, "resolver_start_events": out.starts, "errors": out.errors, "data_is_null": out.data_null});
+            let what = format!(
+                "{} ({}), limit {} at {} {:?}: expected {} but observed {verdict} (resolver starts {}, errors {:?}) | reference measures {:?} | vars {} | doc: {}",
+                p.flavour.name(),
+                if p.fast { "Fast" } else { "Strict" },
+                c.kind,
+                c.delta,
+                c.lim,
+                if c.expect_reject { "rejection before any resolver runs" } else { "execution" },
+                out.starts,
+                out.errors,
+                m,
+                p.gd.vars,
+                p.text
+            );
+            run.violation(&sig, &what, replay(obs));
+        }
+    }
+}
+
+fn one_generated(run: &Run, st: &Statics, cache: &mut Cache, fl: Flavour, case_seed: u64, verbose: bool) {
+    let p = prepare(run, st, fl, case_seed);
+    let rules = match fl {
+        Flavour::S1 => &st.s1_rules,
+        Flavour::S10 => &st.s10_rules,
+        Flavour::Dyn => &st.no_rules,
+    };
+    let md = match measure(&p.ts, rules, &p.gd.doc, &p.gd.vars) {
+        Ok(m) => m,
+        Err(e) => {
+            cache.t.count("skipped_not_measurable", 1);
+            cache.t.seen("skipped_reason", &vh_core::run::truncate(&e, 60));
+            return;
+        }
+    };
+    if md.m.nesting + 1 > 32 {
+        // other limits are tested under the default recursive-depth limit of 32
+        cache.t.count("skipped_nesting_above_default", 1);
+        return;
+    }
+    for f in &md.needs {
+        cache.t.seen("finding_prone_features_generated", f);
+        if !run.feature(f) {
+            if verbose {
+                // an explicit replay runs the case even though a known finding excludes it from the workload
+                println!("note: this document needs generator feature {f}, which a known finding excludes from the workload; running it anyway");
+                continue;
+            }
+            cache.t.count(&format!("skipped_excluded_feature.{f}"), 1);
+            return;
+        }
+    }
+    if verbose {
+        println!("flavour: {}\nschema:\n{}document: {}\nvariables: {}\nmeasures: {:?}", fl.name(), p.ts.sdl(), p.text, p.gd.vars, md.m);
+    }
+    let h = rng::mix(&[rng::hash_str(fl.name()), rng::hash_str(&p.ts.sdl()), rng::hash_str(&p.text), rng::hash_str(&p.gd.vars.to_string())]);
+    // non-trivial: fragments, directives, aliases, variables or a declared rule take part in the measures
+    if !p.gd.features.is_empty() || md.m.directives > 0 || md.rules_applied > 0 {
+        cache.t.distinct.push(h);
+    }
+    for f in &p.gd.features {
+        cache.t.seen("document_features", f);
+    }
+    for v in &md.via {
+        cache.t.seen(&format!("{}_custom_rule", fl.group()), v);
+    }
+    cache.t.count(&format!("{}.documents", fl.name()), 1);
+    if md.rules_applied > 0 {
+        cache.t.count("documents_with_declared_rule", 1);
+        cache.t.count("declared_rule_applications", md.rules_applied);
+    }
+    cache.t.seen("depth_values", &md.m.depth.min(12).to_string());
+    cache.t.seen("nesting_values", &md.m.nesting.min(16).to_string());
+    cache.t.seen("directive_values", &md.m.directives.to_string());
+    // samples: the first two documents of each flavour that shard 0 sees
+    if cache.sampling && cache.t.per_flavour(fl) < 2 {
+        run.sample(json!({
+        "flavour": fl.name(),
+        "document": p.text,
+        "variables": p.gd.vars,
+        "validation_mode": if p.fast { "Fast" } else { "Strict" },
+        "executed_through": if p.via_stream { "Schema::execute_stream" } else { "Schema::execute" },
+        "reference_measures": measures_json(&md.m),
+        }));
+    }
+    check(run, cache, &p, &md, "C10", verbose);
+}
+
+// ================================================================= calibration documents
+
+/// Tiny documents whose four measures are written down by hand (from the
+/// doc comments of the limit_* builder methods, the property text and the
+/// library's own unit tests of the depth / complexity visitors). They pin the
+/// conventions of the reference: a disagreement between these numbers and R3
+/// is a harness error (inconclusive), a disagreement with the library shows up
+/// as a violation of the m−1 / m / m+1 configurations run on them.
+struct Calib {
+    fl: Flavour,
+    text: &'static str,
+    vars: J,
+    depth: u64,
+    complexity: u128,
+    nesting: u64,
+    directives: u64,
+}
+
+fn calibrations() -> Vec<Calib> {
+    let c = |fl, text, vars, depth, complexity, nesting, directives| Calib { fl, text, vars, depth, complexity, nesting, directives };
+    vec![
+        c(Flavour::S1, "{ pets { __typename } }", json!({}), 1, 1, 1, 0),
+        c(Flavour::S1, "{ dog { name } }", json!({}), 2, 2, 1, 0),
+        c(Flavour::S1, "{ dog { name mate { name bark } } dogs { id } }", json!({}), 3, 7, 2, 0),
+        c(Flavour::S1, "{ page { name } }", json!({}), 2, 7, 1, 0),
+        c(Flavour::S1, "{ page(count: 3) { name bark } }", json!({}), 2, 8, 1, 0),
+        c(Flavour::S1, "query($n: Int! = 4) { page(count: $n) { name } }", json!({}), 2, 6, 1, 0),
+        c(Flavour::S1, "query($n: Int! = 4) { page(count: $n) { name } }", json!({"n": 2}), 2, 4, 1, 0),
+        c(Flavour::S1, "{ dog { ...F } } fragment F on Dog { owner { name } }", json!({}), 3, 3, 3, 0),
+        c(Flavour::S1, "{ dog { name @skip(if: false) @include(if: true) id @include(if: true) } }", json!({}), 2, 3, 1, 2),
+        c(Flavour::S1, "{ ... on Query { ... { dog { id } } } }", json!({}), 2, 2, 3, 0),
+        c(Flavour::S1, "{ ...Q } fragment Q on Query { a: page(count: 2) { name } b: page(count: 0) { name } }", json!({}), 2, 6, 2, 0),
+        c(Flavour::S10, "{ shelf { cost label } }", json!({}), 2, 9, 1, 0),
+        c(Flavour::S10, "{ shelf { books(count: 2) { title } } }", json!({}), 3, 5, 2, 0),
+        c(Flavour::S10, "{ shelf { ... on Shelf { books(count: 2) { title } } } }", json!({}), 3, 5, 3, 0),
+        c(Flavour::S10, "{ shelf { parent { label id } } }", json!({}), 3, 5, 2, 0),
+        c(Flavour::S10, "{ shelves { books { pages { n } } } }", json!({}), 4, 172, 3, 0),
+        c(Flavour::S10, "{ shelf { books(count: 1) { meta { words rating plain derived(k: 4) more } } } }", json!({}), 4, 13, 3, 0),
+        c(Flavour::S10, "{ version @tagA @tagB(n: 1) @skip(if: false) }", json!({}), 1, 0, 0, 3),
+    ]
+}
+
+
+// ----------------------------------------------------------------- a small parser for hand-written documents
+//
+// Calibration documents and witnesses are written as text. They are parsed into
+// the harness AST here (a subset of the grammar: no descriptions, no block
+// strings, no escapes), re-printed by the harness printer, and the re-printed
+// text is what is sent — so the text executed is the AST measured.
+
+mod mini {
+    use vh_model::doc::*;
+    use vh_model::types::{Ty, Val};
+
+    #[derive(Clone, Debug, PartialEq)]
+    enum T {
+        P(char),
+        Spread,
+        Name(String),
+        Int(i64),
+        Str(String),
+    }
+
+    fn lex(s: &str) -> Result<Vec<T>, String> {
+        let c: Vec<char> = s.chars().collect();
+        let mut i = 0;
+        let mut out = vec![];
+        while i < c.len() {
+            let ch = c[i];
+            if ch.is_whitespace() || ch == ',' {
+                i += 1;
+            } else if ch == '.' {
+                if c.get(i + 1) == Some(&'.') && c.get(i + 2) == Some(&'.') {
+                    out.push(T::Spread);
+                    i += 3;
+                } else {
+                    return Err("stray '.'".into());
+                }
+            } else if "{}()[]:!=@$".contains(ch) {
+                out.push(T::P(ch));
+                i += 1;
+            } else if ch == '"' {
+                let mut j = i + 1;
+                let mut t = String::new();
+                while j < c.len() && c[j] != '"' {
+                    t.push(c[j]);
+                    j += 1;
+                }
+                out.push(T::Str(t));
+                i = j + 1;
+            } else if ch == '-' || ch.is_ascii_digit() {
+                let mut j = i + 1;
+                while j < c.len() && c[j].is_ascii_digit() {
+                    j += 1;
+                }
+                let t: String = c[i..j].iter().collect();
+                out.push(T::Int(t.parse().map_err(|_| format!("bad int {t}"))?));
+                i = j;
+            } else if ch == '_' || ch.is_ascii_alphabetic() {
+                let mut j = i + 1;
+                while j < c.len() && (c[j] == '_' || c[j].is_ascii_alphanumeric()) {
+                    j += 1;
+                }
+                out.push(T::Name(c[i..j].iter().collect()));
+                i = j;
+            } else {
+                return Err(format!("unexpected character {ch:?}"));
+            }
+        }
+        Ok(out)
+    }
+
+    struct P {
+        t: Vec<T>,
+        i: usize,
+        doc: Doc,
+    }
+
+    impl P {
+        fn peek(&self) -> Option<&T> {
+            self.t.get(self.i)
+        }
+        fn eat(&mut self, c: char) -> bool {
+            if self.peek() == Some(&T::P(c)) {
+                self.i += 1;
+                true
+            } else {
+                false
+            }
+        }
+        fn expect(&mut self, c: char) -> Result<(), String> {
+            if self.eat(c) { Ok(()) } else { Err(format!("expected {c:?} at token {} ({:?})", self.i, self.peek())) }
+        }
+        fn name(&mut self) -> Result<String, String> {
+            match self.peek().cloned() {
+                Some(T::Name(n)) => {
+                    self.i += 1;
+                    Ok(n)
+                }
+                other => Err(format!("expected a name at token {} ({other:?})", self.i)),
+            }
+        }
+        fn value(&mut self) -> Result<Val, String> {
+            match self.peek().cloned() {
+                Some(T::P('$')) => {
+                    self.i += 1;
+                    Ok(Val::Var(self.name()?))
+                }
+                Some(T::Int(i)) => {
+                    self.i += 1;
+                    Ok(Val::Int(i))
+                }
+                Some(T::Str(s)) => {
+                    self.i += 1;
+                    Ok(Val::Str(s))
+                }
+                Some(T::Name(n)) => {
+                    self.i += 1;
+                    Ok(match n.as_str() {
+                        "true" => Val::Bool(true),
+                        "false" => Val::Bool(false),
+                        "null" => Val::Null,
+                        _ => Val::Enum(n),
+                    })
+                }
+                Some(T::P('[')) => {
+                    self.i += 1;
+                    let mut xs = vec![];
+                    while !self.eat(']') {
+                        xs.push(self.value()?);
+                    }
+                    Ok(Val::List(xs))
+                }
+                Some(T::P('{')) => {
+                    self.i += 1;
+                    let mut m = vec![];
+                    while !self.eat('}') {
+                        let k = self.name()?;
+                        self.expect(':')?;
+                        m.push((k, self.value()?));
+                    }
+                    Ok(Val::Obj(m))
+                }
+                other => Err(format!("expected a value at token {} ({other:?})", self.i)),
+            }
+        }
+        fn args(&mut self) -> Result<Vec<(String, Val)>, String> {
+            let mut out = vec![];
+            if self.eat('(') {
+                while !self.eat(')') {
+                    let k = self.name()?;
+                    self.expect(':')?;
+                    out.push((k, self.value()?));
+                }
+            }
+            Ok(out)
+        }
+        fn dirs(&mut self) -> Result<Vec<Dir>, String> {
+            let mut out = vec![];
+            while self.eat('@') {
+                let name = self.name()?;
+                let args = self.args()?;
+                out.push(Dir { name, args });
+            }
+            Ok(out)
+        }
+        fn ty(&mut self) -> Result<Ty, String> {
+            let mut t = if self.eat('[') {
+                let inner = self.ty()?;
+                self.expect(']')?;
+                inner.list()
+            } else {
+                Ty::Named(self.name()?)
+            };
+            if self.eat('!') {
+                t = t.nn();
+            }
+            Ok(t)
+        }
+        fn selset(&mut self) -> Result<Vec<Sel>, String> {
+            self.expect('{')?;
+            let mut out = vec![];
+            while !self.eat('}') {
+                if self.peek() == Some(&T::Spread) {
+                    self.i += 1;
+                    match self.peek().cloned() {
+                        Some(T::Name(n)) if n == "on" => {
+                            self.i += 1;
+                            let cond = self.name()?;
+                            let dirs = self.dirs()?;
+                            let sel = self.selset()?;
+                            let id = self.doc.fresh_id();
+                            out.push(Sel::Inline { id, cond: Some(cond), dirs, sel });
+                        }
+                        Some(T::Name(n)) => {
+                            self.i += 1;
+                            let dirs = self.dirs()?;
+                            let id = self.doc.fresh_id();
+                            out.push(Sel::Spread { id, name: n, dirs });
+                        }
+                        _ => {
+                            let dirs = self.dirs()?;
+                            let sel = self.selset()?;
+                            let id = self.doc.fresh_id();
+                            out.push(Sel::Inline { id, cond: None, dirs, sel });
+                        }
+                    }
+                } else {
+                    let first = self.name()?;
+                    let (alias, name) = if self.eat(':') { (Some(first), self.name()?) } else { (None, first) };
+                    let args = self.args()?;
+                    let dirs = self.dirs()?;
+                    let sel = if self.peek() == Some(&T::P('{')) { self.selset()? } else { vec![] };
+                    let id = self.doc.fresh_id();
+                    out.push(Sel::Field(FieldSel { id, alias, name, args, dirs, sel }));
+                }
+            }
+            if out.is_empty() {
+                return Err("empty selection set".into());
+            }
+            Ok(out)
+        }
+    }
+
+    pub fn parse(text: &str) -> Result<Doc, String> {
+        let mut p = P { t: lex(text)?, i: 0, doc: Doc::default() };
+        let mut ops = vec![];
+        let mut frags = vec![];
+        while p.peek().is_some() {
+            match p.peek().cloned() {
+                Some(T::P('{')) => {
+                    let sel = p.selset()?;
+                    ops.push(Op { kind: OpKind::Query, name: None, vars: vec![], dirs: vec![], sel });
+                }
+                Some(T::Name(k)) if k == "fragment" => {
+                    p.i += 1;
+                    let name = p.name()?;
+                    let on = p.name()?;
+                    if on != "on" {
+                        return Err("expected 'on'".into());
+                    }
+                    let cond = p.name()?;
+                    let sel = p.selset()?;
+                    frags.push(Frag { name, cond, sel });
+                }
+                Some(T::Name(k)) if k == "query" || k == "mutation" => {
+                    p.i += 1;
+                    let kind = if k == "query" { OpKind::Query } else { OpKind::Mutation };
+                    let name = match p.peek() {
+                        Some(T::Name(_)) => Some(p.name()?),
+                        _ => None,
+                    };
+                    let mut vars = vec![];
+                    if p.eat('(') {
+                        while !p.eat(')') {
+                            p.expect('$')?;
+                            let n = p.name()?;
+                            p.expect(':')?;
+                            let ty = p.ty()?;
+                            let default = if p.eat('=') { Some(p.value()?) } else { None };
+                            vars.push(VarDef { name: n, ty, default });
+                        }
+                    }
+                    let dirs = p.dirs()?;
+                    let sel = p.selset()?;
+                    ops.push(Op { kind, name, vars, dirs, sel });
+                }
+                other => return Err(format!("unexpected token {other:?}")),
+            }
+        }
+        let mut doc = p.doc;
+        doc.ops = ops;
+        doc.frags = frags;
+        Ok(doc)
+    }
+}
+
+/// A hand-written case over one of the static schemas.
+fn written(st: &Statics, fl: Flavour, text: &str, vars: J, fast: bool, seed: u64) -> Result<Prepared, String> {
+    let doc = mini::parse(text)?;
+    let ts = match fl {
+        Flavour::S1 => st.s1_full.clone(),
+        Flavour::S10 => st.s10.clone(),
+        Flavour::Dyn => return Err("hand-written cases use the static schemas".into()),
+    };
+    let op_name = doc.ops.first().and_then(|o| o.name.clone());
+    let printed = print(&doc, false).text;
+    let gd = GenDoc { doc, op_name, vars, features: Default::default() };
+    Ok(Prepared {
+        flavour: fl,
+        ts: ts.clone(),
+        env_ts: ts,
+        gd,
+        text: printed,
+        world: world_for("static", seed),
+        fast,
+        via_stream: seed % 2 == 1,
+        case_seed: seed,
+    })
+}
+
+fn rules_for<'a>(st: &'a Statics, fl: Flavour) -> &'a Rules {
+    match fl {
+        Flavour::S1 => &st.s1_rules,
+        Flavour::S10 => &st.s10_rules,
+        Flavour::Dyn => &st.no_rules,
+    }
+}
+
+fn run_calibrations(run: &Run, st: &Statics, cache: &mut Cache) {
+    for (i, c) in calibrations().into_iter().enumerate() {
+        for fast in [false, true] {
+            let p = match written(st, c.fl, c.text, c.vars.clone(), fast, 100 + i as u64) {
+                Ok(p) => p,
+                Err(e) => {
+                    run.inconclusive(&format!("harness error: calibration document {i} does not parse: {e}"));
+                    return;
+                }
+            };
+            let md = match measure(&p.ts, rules_for(st, c.fl), &p.gd.doc, &p.gd.vars) {
+                Ok(m) => m,
+                Err(e) => {
+                    run.inconclusive(&format!("harness error: calibration document {i} is not measurable: {e}"));
+                    return;
+                }
+            };
+            let hand = Measures { depth: c.depth, complexity: c.complexity, nesting: c.nesting, directives: c.directives };
+            if md.m != hand {
+                run.inconclusive(&format!(
+                    "harness error: reference measures {:?} differ from the hand-written {:?} on calibration document {}",
+                    md.m, hand, c.text
+                ));
+                return;
+            }
+            cache.t.count("calibration_documents", 1);
+            check(run, cache, &p, &md, "C10-calibration", false);
+        }
+    }
+}
+
+// ================================================================= main
+
 pub fn main() {
-    println!("INCONCLUSIVE property=C10 reason=check not built yet");
-    std::process::exit(2);
+    let mut run = Run::from_args(
+        "exploration",
+        "single-operation documents, valid by construction (gen_doc: aliases, inline fragments with and without type \
+         condition, named fragments incl. reuse and nesting, arguments from literals / supplied variables / variable \
+         defaults / omitted variables / omitted arguments; plus @skip(if:false) / @include(if:true) and two no-op custom \
+         field directives that never remove a selection) over (a) the derive-built schema S1 (rule on Query.page), (b) \
+         the derive-built schema S10 of this check (rules of four shapes on Object, SimpleObject and ComplexObject \
+         fields behind an interface and a union) and (c) random dynamic schemas; per document the reference measures \
+         (depth, complexity, nesting, directives per field; fragments inlined) are computed on the harness AST and the \
+         schema is rebuilt and the request executed with no limit, with each of the four limits at m-1, m, m+1, with all \
+         four at m and with all at m but one at m-1, in Strict or Fast validation mode; the monitor reads response and \
+         resolver event log. Non-trivial = the document uses a fragment, alias, variable, directive or a field with a \
+         declared complexity rule; distinct by hash of (schema, document, variables)",
+    );
+    run.assume("conventions of the measures, read from src/validation/visitors/{depth,complexity}.rs (and their unit tests), src/schema.rs check_recursive_depth / check_max_directives and the limit_* doc comments, and pinned by hand-computed calibration documents: a root field has depth 1; the operation's selection set is nesting level 0 and every field / inline fragment / fragment spread selection set is one level further in; the meta field __typename adds nothing to depth and complexity (the visitors never enter it; it runs no resolver) but its directives count; directives on fragment spreads and inline fragments are not per-field directives");
+    run.assume("the property does not say whether selections removed by @skip/@include count; every generated directive keeps its selection (@skip(if:false), @include(if:true), no-op custom directives), so both readings give the same measures");
+    run.assume("single-operation documents only (whether unselected operations count is not fixed by the property)");
+    run.assume("a declared rule is looked up on the static type of the enclosing selection set (field return type, or the type condition of the nearest enclosing fragment); no rule is declared on a field that an interface of its type also declares (checked at start), so which rule applies is never ambiguous");
+    run.assume("rules are evaluated with the saturating usize arithmetic their Rust expressions spell out; a document whose reference complexity exceeds usize::MAX must execute without limits and be rejected under limit_complexity(usize::MAX - 1); whether it exceeds a limit of exactly usize::MAX is not asserted");
+    run.assume("dynamic schemas cannot declare complexity rules (async_graphql::dynamic registers compute_complexity: None), so their complexity is the number of selected fields");
+    run.assume("documents are valid by construction (gen_doc.rs); the hand models s1::model() and c10::s10::model() state what the Rust sources declare");
+    run.assume("'executes' is observed as: at least one resolver Start event, or non-null data; 'rejected before any resolver runs' as: errors, null data and no Start event in the request's event log");
+    run.exhaustive(false);
+
+    let st = Statics::new();
+    for (ts, rules, n) in [(&st.s1_full, &st.s1_rules, "S1"), (&st.s10, &st.s10_rules, "S10")] {
+        if let Err(e) = rules_are_unambiguous(ts, rules) {
+            run.inconclusive(&format!("harness error: {n}: {e}"));
+            run.finish();
+        }
+    }
+
+    if let Some(path) = run.replay.clone() {
+        replay(&run, &st, &path);
+        run.finish();
+    }
+
+    let docs = run.scale(480, 400_000);
+    // thorough stops taking new documents after this many seconds (the floors still apply)
+    let deadline_s = 420.0;
+    run.set_max_samples(6);
+    run.set_floors(run.scale(2_880, 300_000), run.scale(120, 12_000));
+    for k in ["depth", "complexity", "recursion", "directives"] {
+        run.require_counter(&format!("{k}.accepted"));
+        run.require_counter(&format!("{k}.rejected"));
+    }
+    run.require_counter("resolver_start_events");
+    run.require_counter("declared_rule_applications");
+    run.require_counter("calibration_documents");
+
+    {
+        let mut cache = Cache::default();
+        run_calibrations(&run, &st, &mut cache);
+        witnesses(&run, &st, &mut cache);
+        cache.t.flush(&run);
+    }
+
+    let shards = n_shards(&run);
+    let run_ref = &run;
+    let st_ref = &st;
+    std::thread::scope(|sc| {
+        for shard in 0..shards {
+            sc.spawn(move || {
+                let mut cache = Cache::default();
+                cache.sampling = shard == 0;
+                let mut i = shard;
+                while i < docs {
+                    if run_ref.elapsed_s() > deadline_s {
+                        cache.t.count("documents_not_run_deadline", (docs - i).div_ceil(shards));
+                        break;
+                    }
+                    let case_seed = rng::mix(&[run_ref.seed, 10, i]);
+                    let fl = match (case_seed >> 7) % 4 {
+                        0 => Flavour::S1,
+                        1 => Flavour::S10,
+                        _ => Flavour::Dyn,
+                    };
+                    one_generated(run_ref, st_ref, &mut cache, fl, case_seed, false);
+                    i += shards;
+                }
+                cache.t.flush(run_ref);
+            });
+        }
+    });
+    run.extra("schemas", json!("S1 (harness/schema/src/s1.rs), S10 (harness/exec/src/c10.rs), dynamic (gen_ts)"));
+    run.finish();
+}
+
+fn replay(run: &Run, st: &Statics, path: &std::path::Path) {
+    let Ok(text) = std::fs::read_to_string(path) else {
+        run.inconclusive("replay file unreadable");
+        return;
+    };
+    let Ok(j) = serde_json::from_str::<J>(&text) else {
+        run.inconclusive("replay file is not JSON");
+        return;
+    };
+    let case = j.get("case").unwrap_or(&j);
+    let Some(fl) = case.get("flavour").and_then(|v| v.as_str()).and_then(Flavour::parse) else {
+        run.inconclusive("replay file names no flavour");
+        return;
+    };
+    let mut cache = Cache::default();
+    if let Some(seed) = case.get("case_seed").and_then(|v| v.as_u64()) {
+        if case.get("written").and_then(|v| v.as_bool()) != Some(true) {
+            println!("replaying generated case {seed} ({})", fl.name());
+            one_generated(run, st, &mut cache, fl, seed, true);
+            cache.t.flush(run);
+            return;
+        }
+    }
+    // a pinned witness: run the witnesses again
+    if case.get("witness").is_some() {
+        witnesses(run, st, &mut cache);
+        return;
+    }
+    // a hand-written case: document text + variables
+    let doc = case.get("document").and_then(|v| v.as_str()).unwrap_or_default();
+    let vars = case.get("variables").cloned().unwrap_or(json!({}));
+    let fast = case.get("validation_mode").and_then(|v| v.as_str()) == Some("Fast");
+    match written(st, fl, doc, vars, fast, 1) {
+        Ok(p) => match measure(&p.ts, rules_for(st, fl), &p.gd.doc, &p.gd.vars) {
+            Ok(md) => {
+                println!("document: {}\nvariables: {}\nmeasures: {:?}", p.text, p.gd.vars, md.m);
+                check(run, &mut cache, &p, &md, "C10-replay", true);
+            }
+            Err(e) => run.inconclusive(&format!("document is not measurable: {e}")),
+        },
+        Err(e) => run.inconclusive(&format!("document does not parse with the harness' small parser: {e}")),
+    }
+}
+
+// ================================================================= pinned witnesses of findings
+
+/// Smallest complexity limit in 0..=upto under which the request executes
+/// (= the complexity the library computed), or a description of what happened.
+fn library_complexity(p: &Prepared, cache: &mut Cache, upto: usize) -> String {
+    for l in 0..=upto {
+        let lim = Limits { complexity: Some(l), ..Default::default() };
+        let schema = match cache.get(p.flavour, &p.ts, &lim, p.fast) {
+            Ok(s) => s,
+            Err(e) => return format!("schema build failed: {e}"),
+        };
+        match observe(p, &schema) {
+            Ok(o) if o.seen == Seen::Executed => return l.to_string(),
+            Ok(o) if o.seen == Seen::Rejected && o.errors == ["Query is too complex."] => {}
+            Ok(o) => return format!("at limit {l}: {:?} {:?}", o.seen, o.errors),
+            Err(pn) => return format!("panicked: {}", pn.split(" @ ").next().unwrap_or_default()),
+        }
+    }
+    format!("above {upto}")
+}
+
+fn short_outcome(p: &Prepared, cache: &mut Cache, lim: &Limits) -> String {
+    let schema = match cache.get(p.flavour, &p.ts, lim, p.fast) {
+        Ok(s) => s,
+        Err(e) => return format!("schema build failed: {e}"),
+    };
+    match observe(p, &schema) {
+        Ok(o) => match o.seen {
+            Seen::Executed => "executed".to_string(),
+            Seen::Rejected => format!("rejected: {}", o.errors.join("; ")),
+            Seen::Odd(s) => s,
+        },
+        Err(pn) => format!("panicked: {}", pn.split(" @ ").next().unwrap_or_default()),
+    }
+}
+
+/// Pinned witnesses. Each reports its finding with the exact wrong observation;
+/// a different wrong observation is a new violation, the right one a NOTE.
+fn witnesses(run: &Run, st: &Statics, cache: &mut Cache) {
+    let prep = |fl, text: &str| -> Option<(Prepared, Measured)> {
+        let p = written(st, fl, text, json!({}), false, 7).ok()?;
+        let md = measure(&p.ts, rules_for(st, fl), &p.gd.doc, &p.gd.vars).ok()?;
+        Some((p, md))
+    };
+    let report = |id: &str, obs: Vec<String>, clean: bool, docs: Vec<String>| {
+        run.count("witness_runs", 1);
+        if clean {
+            run.note(&format!("witness {id} now behaves as the property states: {}", obs.join(" | ")));
+            run.count(&format!("witness_clean.{id}"), 1);
+        } else {
+            run.violation(
+                &format!("{id}|{}", obs.join(" | ")),
+                &format!("pinned witness: {}", obs.join(" | ")),
+                json!({"witness": id, "flavour": "static-S10", "written": true, "documents": docs, "observed": obs}),
+            );
+        }
+    };
+
+    // 1 — a rule is looked up on the type of the spread site
+    {
+        let id = "C10-rule-lost-below-fragment-spread";
+        let mut obs = vec![];
+        let mut clean = true;
+        let mut docs = vec![];
+        for text in ["{ node { ...F } } fragment F on Shelf { cost }", "{ item { ...F } } fragment F on Book { meta { words } }"] {
+            let Some((p, md)) = prep(Flavour::S10, text) else {
+                run.inconclusive("harness error: witness document of finding 1 does not parse / measure");
+                return;
+            };
+            let lib = library_complexity(&p, cache, md.m.complexity as usize + 8);
+            run.evals(1);
+            clean &= lib == md.m.complexity.to_string();
+            obs.push(format!("[{}] library complexity {lib}, reference {}", p.text, md.m.complexity));
+            docs.push(p.text.clone());
+        }
+        report(id, obs, clean, docs);
+    }
+    // 2 — an omitted variable without default feeding a rule argument fails the request
+    {
+        let id = "C10-rule-argument-omitted-variable";
+        let mut obs = vec![];
+        let mut clean = true;
+        let mut docs = vec![];
+        for (fl, text) in [
+            (Flavour::S1, "query($v: Int) { page(count: $v) { name } }"),
+            (Flavour::S10, "query($v: Int) { shelf { books { pages(first: $v) { n } } } }"),
+        ] {
+            let Some((p, md)) = prep(fl, text) else {
+                run.inconclusive("harness error: witness document of finding 2 does not parse / measure");
+                return;
+            };
+            let o = short_outcome(&p, cache, &Limits::default());
+            let lib = if o == "executed" { library_complexity(&p, cache, md.m.complexity as usize + 8) } else { "-".into() };
+            run.evals(1);
+            clean &= o == "executed" && lib == md.m.complexity.to_string();
+            obs.push(format!("[{}] without limits: {o}; library complexity {lib}, reference {}", p.text, md.m.complexity));
+            docs.push(p.text.clone());
+        }
+        report(id, obs, clean, docs);
+    }
+    // 3 — the visitor's own sums overflow usize
+    {
+        let id = "C10-complexity-sum-overflow";
+        let mut obs = vec![];
+        let mut clean = true;
+        let mut docs = vec![];
+        for text in [
+            "{ shelf { id } shelves(first: 2147483647) { books(count: 2147483647) { pages(first: 2147483647) { n } } } }",
+            "{ shelf { parent { books(count: 2147483647) { pages(first: 2147483647) { book { pages(first: 2147483647) { n } } } } } } }",
+        ] {
+            let Some((p, md)) = prep(Flavour::S10, text) else {
+                run.inconclusive("harness error: witness document of finding 3 does not parse / measure");
+                return;
+            };
+            if md.m.complexity <= UMAX {
+                run.inconclusive("harness error: witness document of finding 3 does not exceed usize::MAX");
+                return;
+            }
+            let a = short_outcome(&p, cache, &Limits::default());
+            let b = short_outcome(&p, cache, &Limits { complexity: Some(usize::MAX - 1), ..Default::default() });
+            let c = short_outcome(&p, cache, &Limits { complexity: Some(1000), ..Default::default() });
+            run.evals(3);
+            clean &= a == "executed" && b == "rejected: Query is too complex." && c == "rejected: Query is too complex.";
+            obs.push(format!("[{}] reference {} > usize::MAX; without limits: {a}; limit usize::MAX-1: {b}; limit 1000: {c}", p.text, md.m.complexity));
+            docs.push(p.text.clone());
+        }
+        report(id, obs, clean, docs);
+    }
 }
